@@ -5,8 +5,6 @@ import lib
 import gentree
 from runner import CorrResult
 
-FINDING_EMPTY_ALL = "C16-empty-all-operation"
-
 QUERIES = [
     "a", "a AND b", "a OR b", "a b", "a AND (b OR -c) f:(x y)", "NOT a", "a AND NOT b", "-a b +c",
     "a AND b AND c OR d", "(a OR b) AND (c OR (d AND NOT e))", "f:(a b) AND g:c", "f:(a AND -b)",
@@ -72,7 +70,9 @@ def pre_neg(T, n, q, sig, dor):
 
 def reported(T, tree, sig, M, O, dor=True):
     """the premise of the property: PropagateSpec.reported (an element covering several terms is never reported),
-    widened: such an element may also be reported, exactly when it evaluates to true"""
+    widened: such an element may also be reported as matching, but only if its value before its own negation
+    (pre_neg) is true.  This is PropagateSpecWide.reported_wide, clause by clause; the model's executable version
+    reported_wide_b is compared with this function on every generated case (correspond, second comparison)"""
     named = M | O
     cn = dict(cnodes(T, tree))
     for q, n in cn.items():
@@ -94,13 +94,10 @@ def reported(T, tree, sig, M, O, dor=True):
     return True
 
 
-def empty_all(T, tree, dor):
-    """executable recognizer of the known finding: a classified operation with zero operands that
-    boolean semantics evaluates with all()"""
-    for _, n in cnodes(T, tree):
-        if isinstance(n, T.BaseOperation) and not n.children and not or_like(T, n, dor):
-            return True
-    return False
+def has_empty_operation(T, tree):
+    """a classified operation with zero operands (statistics only: such trees are judged by the plain oracle like
+    any other; they were the two findings repaired in /repo 831a694 and stay in the corpus as regression cases)"""
+    return any(isinstance(n, T.BaseOperation) and not n.children for _, n in cnodes(T, tree))
 
 
 def rand_query(r, depth, top=True):
@@ -152,7 +149,7 @@ def correspond(model_ok, res):
     g = gentree.Gen(r, T, layout=0.0, odd=0.12, max_ops=4)
     W = T.Word
     corpus = [
-        T.AndOperation(),                                          # the known finding, always first
+        T.AndOperation(),                                          # the finding repaired in 831a694, always first
         T.AndOperation(W("a"), T.Group(T.AndOperation())),
         T.OrOperation(), T.UnknownOperation(), T.BoolOperation(),
         T.OrOperation(W("a"), T.OrOperation()),
@@ -172,11 +169,49 @@ def correspond(model_ok, res):
             k = r.choice([T.AndOperation, T.OrOperation, T.UnknownOperation, T.BoolOperation])
             trees.append(k(*[g.tree(r.randrange(1, 4)) for _ in range(r.randrange(2, 4))]))
     trees += [parser.parse(rand_query(r, r.randrange(2, 5))) for _ in range(n_query)]
+    # the wide premise: trees on which every named element (compound ones included) is reported, always (appended
+    # last so that the random stream of the cases above does not depend on them).  The first three carried the
+    # second finding repaired in 831a694 (an empty any-operation inheriting True), the others are the examples of
+    # props/C16w.v
+    wide_corpus = [
+        T.Not(T.Not(T.OrOperation())),
+        T.AndOperation(W("a"), T.Group(T.Not(T.OrOperation()))),
+        T.OrOperation(W("a"), T.Group(T.UnknownOperation())),
+        T.AndOperation(W("a"), T.Group(T.AndOperation())),           # empty AND under a reported group: right
+        parser.parse("(f:a OR g:b) AND NOT (c d)"), parser.parse("e AND NOT (c d)"),
+        parser.parse("NOT (a OR b) AND -(c d) AND f:(NOT (x AND y))"),
+    ]
+    trees += wide_corpus
+    forced_wide = {id(t) for t in wide_corpus}
+    # regression corpus for the defect repaired in /repo 831a694 (an operation with zero operands got the status
+    # of its named ancestor instead of all([]) / any([])): every kind of empty operation, at the root and below
+    # named elements, each judged by the plain oracle under BOTH ways of reporting (first assignment: only elements
+    # covering one term are reported - the empty all-operations went wrong; second assignment: every named element
+    # that is true before its own negation - the empty any-operations went wrong).  Appended after everything else.
+    regression_corpus = [
+        T.AndOperation(), T.OrOperation(), T.UnknownOperation(), T.BoolOperation(),
+        T.AndOperation(W("a"), T.Group(T.AndOperation())),
+        T.AndOperation(W("a"), T.AndOperation()),
+        T.OrOperation(W("a"), T.OrOperation()),
+        T.Not(T.Not(T.OrOperation())), T.Not(T.OrOperation()), T.Prohibit(T.UnknownOperation()),
+        T.AndOperation(W("a"), T.Group(T.Not(T.OrOperation()))),
+        T.OrOperation(W("a"), T.Group(T.UnknownOperation())),
+        T.AndOperation(W("a"), T.Group(T.Not(T.OrOperation())), T.Group(T.AndOperation()),
+                       T.Group(T.BoolOperation()), T.Group(T.UnknownOperation())),
+        T.UnknownOperation(T.SearchField("f", T.Group(T.BoolOperation())), T.Boost(T.Group(T.OrOperation()), 2),
+                           T.Plus(T.Group(T.AndOperation())), W("b")),
+        T.OrOperation(T.Group(T.OrOperation(T.OrOperation(), T.UnknownOperation())), T.Not(W("c"))),
+    ]
+    trees += regression_corpus
+    forced_modes = {id(t): [0.3, 0.9] for t in regression_corpus}
+    wcases, wexpect = [], []
 
     cases, payloads = [], []
     seen = set()
     dist = {"premise_holds": 0, "premise_fails": 0, "with_negation": 0, "keyerror_cases": 0,
-            "default": {}, "leaves_bucket": {}, "known_finding_cases": 0}
+            "default": {}, "leaves_bucket": {},
+            "premise_holds_with_compound_element_reported": 0, "narrow_premise_holds": 0,
+            "premise_holds_with_empty_operation": 0, "regression_corpus_cases_under_premise": 0}
     # call histories: ONE propagator instance per default operation is reused for HIST_LEN calls in a
     # row (different trees / assignments); every returned pair is kept and re-checked after the whole
     # history (a result that changes when the instance is used again is an identity fact the value
@@ -221,12 +256,17 @@ def correspond(model_ok, res):
         has_neg = any(isinstance(n, (T.Not, T.Prohibit)) for n in cn.values())
         has_op = any(isinstance(n, T.BaseOperation) and len(n.children) >= 2 for n in cn.values())
         n_assign = 1 if ti < 5 else 2
-        for _ in range(n_assign):
+        has_empty = has_empty_operation(T, tree)
+        for ai in range(n_assign):
             sig = {p: r.random() < 0.5 for p in leaves}
             # how names are reported: 15% arbitrary names (outside the premise); 40% only the elements that cover
             # ONE term, when that term is true; 45% every named element exactly when it evaluates to true (what
             # Elasticsearch reports for named queries: an element covering several terms included)
             mode = r.random()
+            if id(tree) in forced_wide:
+                mode = 0.9
+            if id(tree) in forced_modes:
+                mode = forced_modes[id(tree)][ai]
 
             def names_for(dor):
                 out = []
@@ -276,9 +316,23 @@ def correspond(model_ok, res):
                 elif (ok | ko) != set(cn):
                     why = "classified paths are not exactly the sub-expressions"
                 prem = reported(T, tree, sig, M, O, dor)
+                # boolean evaluation by the oracle, for every sub-expression
+                exp_ok = {p for p, n in cn.items() if ev(T, n, p, sig, dor)}
+                # the model's premise and the specification's `ev` on the same input (second comparison below)
+                wcases.append("(%s, %s, %s, %s, %s, %s, %s)" % (
+                    g_tree, lib.g_bool(dor), g_paths([p for p, v in sig.items() if v]), g_paths(M), g_paths(O),
+                    lib.g_bool(prem), g_paths(exp_ok)))
+                wexpect.append({"tree": desc[:1500], "default_is_or": dor,
+                                "sigma_true": sorted(list(p) for p, v in sig.items() if v),
+                                "matching": sorted(map(list, M)), "other": sorted(map(list, O)),
+                                "python_reported": prem, "python_true_paths": sorted(map(list, exp_ok))})
                 if prem:
                     dist["premise_holds"] += 1
-                    exp_ok = {p for p, n in cn.items() if ev(T, n, p, sig, dor)}
+                    compound = any(q in cn and covered(T, cn[q], q) is None for q in M)
+                    dist["premise_holds_with_compound_element_reported"] += compound
+                    dist["narrow_premise_holds"] += not compound
+                    dist["premise_holds_with_empty_operation"] += has_empty
+                    dist["regression_corpus_cases_under_premise"] += id(tree) in forced_modes
                     if why is None and (ok != exp_ok or ko != set(cn) - exp_ok):
                         why = "status differs from boolean evaluation"
                     if has_op and (desc, tuple(sorted(sig.items())), dflt.__name__) not in seen:
@@ -286,12 +340,9 @@ def correspond(model_ok, res):
                 else:
                     dist["premise_fails"] += 1
                 if why:
-                    fid = None
-                    if why == "status differs from boolean evaluation" and empty_all(T, tree, dor):
-                        fid = FINDING_EMPTY_ALL
-                        dist["known_finding_cases"] += 1
+                    # no known finding is left for C16: every failure of the oracle is a violation
                     res.failures.append((dict(payload, why=why, ok=sorted(map(list, ok)),
-                                              ko=sorted(map(list, ko))), fid))
+                                              ko=sorted(map(list, ko))), None))
                 # ---- the same call on the reused instance of this default operation
                 h = hist.setdefault(dflt, {"inst": naming.MatchingPropagator(dflt), "calls": []})
                 t_h = copy.deepcopy(tree)
@@ -312,7 +363,7 @@ def correspond(model_ok, res):
                 if kept[0] is M_h or kept[0] is O_h or kept[1] is M_h or kept[1] is O_h:
                     res.failures.append((dict(payload, why="a result set is one of the input collections"), None))
                 expected = None
-                if prem and not empty_all(T, tree, dor):
+                if prem:
                     expected = (exp_ok, set(cn) - exp_ok)
                 h["calls"].append({"tree": desc[:600], "names": sorted(names), "kept": kept,
                                    "sigma_true": payload["sigma_true"], "snapshot": snapshot,
@@ -340,10 +391,16 @@ def correspond(model_ok, res):
     res.rule = ("corpus of odd trees + parsed fixed queries + random programmatic trees (all classes, empty "
                 "operations, operations inside ranges) + random parsed queries; names from the real auto_name, "
                 "random truth assignment to every leaf, reported names = named elements whose covered term is "
-                "true (15%: arbitrary names), matching_from_names, defaults Or / And (10%: another class); "
+                "true (40%), or every named element - those covering several terms included - whose value before "
+                "its own negation is true (45%; always on the wide corpus), or arbitrary names (15%), "
+                "matching_from_names, defaults Or / And (10%: another class); "
                 "non-trivial = distinct (tree, assignment, default) satisfying the premise with an operation "
                 "of at least 2 operands; every call is also replayed on a propagator instance reused for 5 "
-                "calls in a row (per default), kept results re-checked after the history")
+                "calls in a row (per default), kept results re-checked after the history; a regression corpus of "
+                "trees with zero-operand operations of every kind (the findings repaired in /repo 831a694), each "
+                "run under both ways of reporting, judged by the same oracle; on every case the model's "
+                "reported_wide_b is compared with the oracle's premise and the specification's ev with the "
+                "oracle's boolean evaluation")
     res.samples = payloads[40:46]
     res.distribution = dist
     if model_ok:
@@ -374,6 +431,38 @@ def correspond(model_ok, res):
         for i in bad:
             if i != canary:
                 res.disagreements.append(payloads[i])
+        # ---- second comparison: the premise under which the oracle judges (Python `reported`) is the premise of
+        # C16w_matching_iff_true (PropagateSpecWide.reported_wide_b), and the oracle's boolean evaluation (Python
+        # `ev`) is the `ev` of the theorems (PropagateSpec.ev), on every generated case
+        wdefs = (
+            "Definition subset (a b : list path) : bool := forallb (fun p => mem_path p b) a.\n"
+            "Definition seteq (a b : list path) : bool := subset a b && subset b a.\n"
+            "Definition wcase_t : Type := (item * bool * list path * list path * list path * bool * list path)%type.\n"
+            "Definition chkw (c : wcase_t) : bool :=\n"
+            "  let '(t, dor, strue, mt, ot, prem, tru) := c in\n"
+            "  let sg := fun p => mem_path p strue in\n"
+            "  Bool.eqb (reported_wide_b dor sg t mt ot) prem &&\n"
+            "  seteq tru (map fst (filter (fun qn => ev dor sg (snd qn) (fst qn)) (cnodes t []))).")
+        # canaries: the premise holds on `a AND b` with a, b reported as they are; claim it does not — and the
+        # true sub-expressions are exactly [0]; claim the root is true too
+        ct = lib.g_item(canary_tree)
+        wcases.append("(%s, true, [[0]%%nat], [[0]%%nat], [[1]%%nat], false, [[0]%%nat])" % ct)
+        wcases.append("(%s, true, [[0]%%nat], [[0]%%nat], [[1]%%nat], true, [[]%%nat; [0]%%nat])" % ct)
+        wcan = {len(wcases) - 2, len(wcases) - 1}
+        wcases = ["(%s : wcase_t)" % c for c in wcases]
+        try:
+            wbad = lib.eval_cases("C16", "Base Decimal Tree Propagate PropagateSpec PropagateSpecWide", wdefs,
+                                  wcases, "chkw", shard=100)
+        except Exception as e:
+            res.model_error = (res.model_error or "") + " premise comparison: " + str(e)
+            wbad = []
+        if not res.model_error and not wcan <= set(wbad):
+            res.model_error = "premise canary was not reported by the comparison"
+        for i in wbad:
+            if i not in wcan:
+                res.disagreements.append(dict(wexpect[i], why="model's reported_wide_b / ev differ from the "
+                                              "oracle's premise / boolean evaluation"))
+        dist["premise_comparisons"] = len(wexpect)
     else:
         res.model_error = "model did not build"
     return res
@@ -382,27 +471,53 @@ def correspond(model_ok, res):
 SPEC = {
     "id": "C16",
     "targets": ["props/C16.vo"],
-    "model_targets": ["model/Propagate.vo", "model/PropagateSpec.vo"],
+    "model_targets": ["model/Propagate.vo", "model/PropagateSpec.vo", "model/PropagateSpecWide.vo"],
     "module": "C16",
-    "theorems": ["C16_classified_once", "C16_subexpressions_are_paths", "C16_matching_iff_true_partial",
-                 "C16_matching_iff_true_refuted", "C16_matching_from_names", "C16_named_elements",
-                 "C16_end_to_end", "C16_calls_independent"],
+    "theorems": ["C16_classified_once", "C16_subexpressions_are_paths", "C16_matching_iff_true",
+                 "C16_matching_iff_true_partial", "C16_empty_operations_boolean", "C16_matching_from_names",
+                 "C16_named_elements", "C16_end_to_end", "C16_calls_independent"],
+    # the same conclusion under the wider premise the oracle judges under (named elements covering several terms
+    # may be reported too, by their value before their own negation)
+    "more": [{"module": "C16w", "target": "props/C16w.vo",
+              "theorems": ["C16w_matching_iff_true", "C16w_matching_iff_true_partial", "C16w_premise_wider",
+                           "C16w_subsumes_C16", "C16w_negation_convention_necessary", "C16w_end_to_end"]}],
     "correspond": correspond,
-    "statement": "every sub-expression (not below a range/fuzzy/proximity) is classified exactly once, for any "
-                 "inputs; under the premise `reported` (named elements without an operation beneath are in "
-                 "matching iff their covered term is true, those with an operation beneath are in other, "
-                 "every term is covered, no negation strictly between a reported element and its term) a "
-                 "sub-expression is in paths_ok iff it evaluates to true and in paths_ko iff false — proved "
-                 "for trees without a zero-operand all-operation; refuted (known finding) for AndOperation()",
+    "statement": "full under the property's own premise (narrow and wide reading). Every sub-expression (not "
+                 "below a range/fuzzy/proximity) is classified exactly once, for any inputs "
+                 "(C16_classified_once); under the premise a sub-expression is in paths_ok iff it evaluates to "
+                 "true and in paths_ko iff false, for every tree, truth assignment and default operation, with "
+                 "no guard on the shape of the tree. Narrow reading of the premise, `reported` "
+                 "(C16_matching_iff_true; with the names of auto_name: C16_end_to_end): a named element "
+                 "covering one term is in matching iff that term is true, with no negation strictly between it "
+                 "and the term when it is; a named element covering several terms is never reported; every term "
+                 "is covered by a named element covering just it. Wide reading, `reported_wide` - the premise "
+                 "the oracle judges under (C16w_matching_iff_true, C16w_end_to_end): a named element covering "
+                 "several terms - an operation, or a group / field / boost / unary operator around one - may "
+                 "also be in matching, but only if its value, taken before the negation when it is itself a "
+                 "NOT / -, is true. The narrow premise implies the wide one (C16w_premise_wider, "
+                 "C16w_subsumes_C16). Reporting a named NOT around an operation by its value AFTER the negation "
+                 "falsifies the conclusion (C16w_negation_convention_necessary). An operation with zero "
+                 "operands is classified as all([]) = True / any([]) = False whatever is reported around it "
+                 "(C16_empty_operations_boolean, no premise; regression for the two findings repaired in /repo "
+                 "831a694: AndOperation() named and not reported was non matching; OrOperation() below an "
+                 "element reported as matching, e.g. NOT NOT OrOperation(), was matching - examples "
+                 "C16_regression_* / C16w_regression_* on the former witnesses, and a forced regression corpus "
+                 "in the harness). The former guarded theorems C16_matching_iff_true_partial / "
+                 "C16w_matching_iff_true_partial remain as corollaries. Python `reported` / `ev` of the oracle "
+                 "== reported_wide_b / ev of the model on every generated case",
     "trusted_base": [
         "Coq 8.16.1 kernel (vm_compute for table facts, examples and correspondence; no native_compute)",
         "no axioms (Print Assumptions: closed under the global context)",
         "gen/translate.py: OR_NODES, NEGATION_NODES, NO_CHILDREN_PROPAGATE, class MROs",
         "hand-written model coq/model/Propagate.v of MatchingPropagator / matching_from_names (the "
-        "extension of OR_NODES by UnknownOperation in __init__ is hard-coded from the method body), tied by "
+        "extension of OR_NODES by UnknownOperation in __init__ and the test isinstance(node, tree.BaseOperation) "
+        "of _propagate are hard-coded from the method bodies; the MRO it is evaluated against is generated), tied by "
         "differential correspondence (harness/c16.py) on every run",
         "coq/model/PropagateSpec.v: the reading of the property's premise and of boolean semantics "
         "(BoolOperation, which the property text does not name, is read as `all`)",
+        "coq/model/PropagateSpecWide.v: the wider reading of the premise (what may be reported about a named "
+        "element covering several terms; the name of a NOT / - tells the value before the negation), tied to "
+        "the oracle's Python `reported` by comparison on every generated case",
         "value-based tree model: a Python object shared between two positions is not modelled",
     ],
     "assumptions": ["trees contain only luqum.tree classes",
